@@ -310,16 +310,25 @@ def r6_parent_pointers(ctx, F, rule='C03-R6'):
                               'fingerprint): reconstruct_path follows a non-predecessor' % (strat, v),
                           span=c.span)
             sp = Spawn(F, strat)
-            ins = [c for c in sp.b.calls_to('DashMap::insert')
-                   if 'NonZero<u64>' in (c.targs[0] if c.targs else '')]
-            if not ins:
+            # normal form (A12): seeds are inserted one by one, or collected as (fingerprint, parent) pairs
+            from common import collected_elements
+            from taint import origin_vals
+            sn = F.norm(sp.b)
+            parents = []
+            for c in sn.calls_to('DashMap::insert'):
+                if 'NonZero<u64>' in (c.targs[0] if c.targs else ''):
+                    parents.append((c, origin_vals(sn, c.args[2]) if c.args[2].get('k') in ('copy', 'move')
+                                    else {sn.val(c.args[2])}))
+            for (y, el, col) in collected_elements(sn, lambda t: t.startswith('dashmap::DashMap<std::num::NonZero<u64>')):
+                parents.append((y, origin_vals(sn, el, extra=[{'f': 1}])))
+            if not parents:
                 raise AnchorMissing('%s spawn: initial generated.insert not found' % strat)
-            for c in ins:
-                v = sp.b.val(c.args[2])
-                ok = v.kind == 'agg' and v.key[2] == 'None'
+            for c, vals in parents:
+                ok = bool(vals) and all(v.kind == 'agg' and v.key[2] == 'None' for v in vals)
                 ctx.check(ok, rule, 'init-parent-none', sp.b,
                           good='initial states have parent None',
-                          bad='%s spawn: initial state inserted with parent %r' % (strat, v), span=c.span)
+                          bad='%s spawn: initial state inserted with parent %s' % (strat, sorted(repr(v) for v in vals)),
+                          span=c.span)
 
 
 def r7_sim_fresh_cycle_set(ctx, F, rule='C03-R7'):
